@@ -1,5 +1,5 @@
 HOOK_COMMITS = ["d8a0f57"]
-FIX_COMMITS = ["10a3687", "edbed29", "6730abc", "202cc98", "aa67b39", "628eb0d", "fc50b63", "67f5fe3", "2135ff7", "ab3e87d"]
+FIX_COMMITS = ["10a3687", "edbed29", "6730abc", "202cc98", "aa67b39", "628eb0d", "fc50b63", "67f5fe3", "2135ff7", "ab3e87d", "b409d3c"]
 SPEC_NOTE = ("Trusted: Lean kernel (axioms propext, Classical.choice, Quot.sound only); the hand-written parser model (constants regenerated from the source), tied to spec_util.rs by the K-spec correspondence "
              "on generated YAML text; serde_yaml's text parser is outside the model.")
 OPS_NOTE = ("Trusted: Lean kernel (axioms propext, Classical.choice, Quot.sound only); the acceptors are hand-written specifications of the operators' possible results, and the real operators are checked to "
@@ -43,8 +43,8 @@ TEXT = {
         "technique": "Lean 4 proof over a process-evaluation state machine composed with the controller invariant + process-level differential runs with /proc scan",
     },
     "C14": {
-        "text": "PARTIAL for the scale clause. Theorems: C14_counts(_always) (report counts = numbers of accepted/rejected items, for every event list, also on failure), C14_items (every record belongs to a started evaluation with that id and seed), "
-                "C14_file (after any record sequence the writer holds one row per record and the best-seen file holds a minimum-objective record), C14_meta_probs (adaptive probabilities in [0,1] under FL-mul-sign). The CSV, best_seen.json and summary "
+        "text": "Theorems: C14_counts(_always) (report counts = numbers of accepted/rejected items, for every event list, also on failure), C14_items (every record belongs to a started evaluation with that id and seed), "
+                "C14_file (after any record sequence the writer holds one row per record and the best-seen file holds a minimum-objective record), C14_meta_probs (adaptive probabilities in [0,1] under FL-mul-sign), C14_meta_scale (scale positive and finite, an obligation on the clamp extracted from meta_adapt.rs; fix b409d3c). The CSV, best_seen.json and summary "
                 "of real runs are parsed and compared with the children's own log and with the writer model; probabilities and scale of every in-run record are checked."
                 " C14_drained / C14_drained_step (Launch.lean): the report writer is drained before sync_launch returns a result, Ok or Err. K-run reads the files back after failed runs as well.",
         "design_ref": "7 (C14), 4 (L7)", "note": PROC_NOTE,
